@@ -20,6 +20,7 @@ class Timer:
         self.expire_time = self.start_time + timeout
         self.auto_restart = auto_restart
         self.stopped = False
+        self._armed = 0  # number of restart() calls so far
         if args is None:
             args = []
         elif not isinstance(args, (list, tuple)):
@@ -31,12 +32,32 @@ class Timer:
 
     def run(self, env: Environment) -> ProcessGenerator:
         try:
-            while env.now < self.expire_time:
-                yield self.env.timeout(self.expire_time - env.now)
-                if not self.stopped:
-                    self.timeout_callback(*self.args, **self.kwargs)
-                    if self.auto_restart:
-                        self.expire_time = env.now + self.timeout
+            while True:
+                # Sleep until the pending expiry. `now + (expiry - now)` may
+                # round one ulp below the expiry (wait for the rest, do not
+                # fire early and then once more), and a timeout below the
+                # resolution of the clock still takes one zero-length wait
+                # (the timer fires in this instant instead of never).
+                expiry = self.expire_time
+                waited = False
+                while not waited or env.now < expiry:
+                    before = env.now
+                    yield self.env.timeout(max(expiry - before, 0))
+                    waited = True
+                    if env.now == before:
+                        break
+                if self.stopped:
+                    return
+                armed = self._armed
+                self.timeout_callback(*self.args, **self.kwargs)
+                if self.stopped:
+                    return
+                if self._armed != armed:
+                    # restarted from the callback
+                    continue
+                if not self.auto_restart:
+                    return
+                self.expire_time = env.now + self.timeout
         except Interrupt as _:
             pass
 
@@ -48,6 +69,7 @@ class Timer:
         self.expire_time = self.env.now
 
     def restart(self, timeout: SimTime):
+        self._armed += 1
         self.start_time = self.env.now
         self.timeout = timeout
         self.expire_time = self.start_time + timeout
